@@ -65,7 +65,7 @@ func VerifC10Cid() {
 
 	oas := &indexes.OffsetAndSize{Offset: uint64(len(before)), Size: uint64(len(section))}
 	var got []byte
-	if verifChoice("branch", 2) == 0 {
+	if verifChoice("branch", verifParam("branches", 2)) == 0 {
 		ep := &Epoch{config: &Config{}, remoteCarReader: f}
 		got, err = ep.GetNodeByOffsetAndSize(context.Background(), &wantCid, oas)
 	} else {
